@@ -99,6 +99,49 @@ Theorem C32_overlay_shape : forall old data,
 Proof. intros old data. split; [apply overlay_replaces | apply overlay_shape]. Qed.
 Print Assumptions C32_overlay_shape.
 
+(* IMPORT, nothing is committed unless every member verifies. backendOpen + Reader.Check on each written file are an
+   oracle (m_valid). (a) one snapshot member they reject, ANYWHERE in ANY stream, makes the import fail; (b) after a failed
+   import -- whatever the reason: rejected member, directory member, `../`, name without `_`, broken tar, missing
+   export.json -- no file <id>_*.zip is left in the snapshots directory (the deferred Cancel removes what was written);
+   (c) hence a committed import has verified every snapshot member it contains. (Files written under other names, e.g.
+   `<id>_foo` without .zip or below an existing sub-directory, are NOT removed by Cancel: they stay, inside the
+   snapshots directory -- observed on the real code, recorded in the notes.) *)
+Theorem C32_invalid_member_fails : forall sdir idb dirs ms1 m ms2 fs export_found,
+  m_kind m = MFile -> m_valid m = false ->
+  beq (m_name m) s_content_json = false -> beq (m_name m) s_export_json = false ->
+  snd (import_writes sdir idb dirs fs (ms1 ++ m :: ms2) export_found) = false.
+Proof. exact invalid_member_fails. Qed.
+Print Assumptions C32_invalid_member_fails.
+
+Theorem C32_failed_import_commits_nothing : forall sdir idb dirs fs ms n,
+  snd (import_final sdir idb dirs fs ms) = false ->
+  glob_id_zip idb n = true ->
+  path_lookup (sdir ++ [n]) (fst (import_final sdir idb dirs fs ms)) = None.
+Proof. exact failed_import_commits_nothing. Qed.
+Print Assumptions C32_failed_import_commits_nothing.
+
+Theorem C32_committed_import_all_valid : forall sdir idb dirs fs ms m,
+  snd (import_final sdir idb dirs fs ms) = true -> In m ms ->
+  m_kind m = MFile -> beq (m_name m) s_content_json = false -> beq (m_name m) s_export_json = false ->
+  m_valid m = true.
+Proof. exact committed_import_all_valid. Qed.
+Print Assumptions C32_committed_import_all_valid.
+
+(* EXPORT -> IMPORT round trip, for EVERY list of snapshot files <ida>_<rest> (names without slash, pairwise distinct,
+   targets free): the stream of SnapshotExport.StreamTo (content.json, the files under their base names, export.json)
+   imported under another set id writes exactly the files <idb>_<rest> with exactly the exported contents, and succeeds *)
+Theorem C32_export_import_roundtrip : forall sdir ida idb dirs fs files,
+  forallb (fun b => negb (b =? c_under)) ida = true -> noslash ida = true -> noslash idb = true ->
+  Forall (fun rc => noslash (fst rc) = true) files ->
+  NoDup (map fst files) ->
+  Forall (fun rc => path_lookup (fst (rt_target sdir idb rc)) fs = None /\
+                    existsb (list_beq (fst (rt_target sdir idb rc))) dirs = false) files ->
+  import_writes sdir idb dirs fs
+    (export_members (map (fun rc => (ida ++ c_under :: fst rc, snd rc)) files)) false
+  = (map (rt_target sdir idb) files, true).
+Proof. exact export_import_roundtrip. Qed.
+Print Assumptions C32_export_import_roundtrip.
+
 (* ---- non-vacuity *)
 Definition ex_init : pstate := Some [(0, 10); (4, 11); (8, 12)].          (* common, rev 4, another directory *)
 Definition ex_entry (ok : bool) : rentry :=
@@ -121,17 +164,30 @@ Proof. vm_compute. repeat split; reflexivity. Qed.
 (* import: `1_d/..` resolves to the snapshots directory itself (open fails, nothing written), `/etc_/passwd` lands inside *)
 Example C32_ex_import :
   let sdir := [[115]; [115;110]] in
-  import_run sdir [55] [] [{| m_name := [49;95;100;47;46;46]; m_kind := MFile; m_body := [120] |}] false = ([], false) /\
-  fst (import_run sdir [55] [sdir ++ [[55;95]]] [{| m_name := [47;101;116;99;95;47;112]; m_kind := MFile; m_body := [120] |}] false)
+  import_run sdir [55] [] [{| m_name := [49;95;100;47;46;46]; m_kind := MFile; m_body := [120]; m_valid := true |}] false = ([], false) /\
+  fst (import_run sdir [55] [sdir ++ [[55;95]]] [{| m_name := [47;101;116;99;95;47;112]; m_kind := MFile; m_body := [120]; m_valid := true |}] false)
     = [sdir ++ [[55;95]; [112]]].
 Proof. vm_compute. split; reflexivity. Qed.
 
 (* duplicates: second member shorter than the first -> new body then the tail of the first; Check on a wrong digest *)
 Example C32_ex_duplicates_and_check :
   let sdir := [[115]] in
-  fst (import_writes sdir [55] [] [] [{| m_name := [49;95;97]; m_kind := MFile; m_body := [1;2;3] |};
-                                      {| m_name := [50;95;97]; m_kind := MFile; m_body := [9] |}] false)
+  fst (import_writes sdir [55] [] [] [{| m_name := [49;95;97]; m_kind := MFile; m_body := [1;2;3]; m_valid := true |};
+                                      {| m_name := [50;95;97]; m_kind := MFile; m_body := [9]; m_valid := true |}] false)
     = [([[115]; [55;95;97]], [1;2;3]); ([[115]; [55;95;97]], [9;2;3])] /\
   check [] [{| z_user := None; z_present := true; z_read_ok := true; z_reported := 5; z_read := 5; z_actual := 1; z_recorded := 2 |}] = false /\
   check [[117]] [{| z_user := Some [118]; z_present := false; z_read_ok := true; z_reported := 5; z_read := 5; z_actual := 1; z_recorded := 2 |}] = true.
 Proof. vm_compute. repeat split; reflexivity. Qed.
+
+(* commit / cancel: accepted, kept-name, nested and rejected members -- after the failure 7_a.zip is gone again, 7_keep and
+   7_d/n.zip are still there; and a two-file round trip from set 3 to set 7 *)
+Example C32_ex_cancel_and_roundtrip :
+  let sdir := [[115]] in
+  let mk n b v := {| m_name := n; m_kind := MFile; m_body := b; m_valid := v |} in
+  import_final sdir [55] [[[115]; [55;95;100]]] []
+    [mk [49;95;97;46;122;105;112] [1] true; mk [49;95;107] [2] true; mk [49;95;100;47;110;46;122;105;112] [3] true;
+     mk [49;95;66;46;122;105;112] [4] false; mk [49;95;122;46;122;105;112] [5] true]
+  = ([([[115]; [55;95;100]; [110;46;122;105;112]], [3]); ([[115]; [55;95;107]], [2])], false) /\
+  import_writes sdir [55] [] [] (export_members [([51;95;97], [1;2]); ([51;95;98], [3])]) false
+  = ([([[115]; [55;95;97]], [1;2]); ([[115]; [55;95;98]], [3])], true).
+Proof. vm_compute. split; reflexivity. Qed.
